@@ -152,10 +152,26 @@ func (g *jgen) structTy(depth int) reflect.Type {
 		used[name] = true
 		g.feat("emb")
 	}
+	caseAt := -1
+	if n >= 2 && h.Intn(5) == 0 {
+		caseAt = h.Intn(n - 1) // two fields whose names differ only in case (exact match must win over the case-insensitive one)
+		g.feat("casepair")
+	}
+	longAt := -1
+	if n >= 1 && h.Intn(6) == 0 {
+		longAt = h.Intn(n) // a field name longer than the decoder's 64-byte lower-casing scratch buffer
+	}
 	for i := 0; i < n; i++ {
 		name := names[h.Intn(len(names))]
 		if n > 12 {
 			name = fmt.Sprintf("F%d", i)
+		}
+		if i == caseAt {
+			name = "Id"
+		} else if i == caseAt+1 && caseAt >= 0 {
+			name = "ID"
+		} else if i == longAt {
+			name = "LongFieldName" + strings.Repeat("Xy", 30+h.Intn(20))
 		}
 		if used[name] {
 			name = fmt.Sprintf("%s%d", name, i)
@@ -163,7 +179,11 @@ func (g *jgen) structTy(depth int) reflect.Type {
 		used[name] = true
 		ft := g.ty(depth + 1)
 		tag := ""
-		switch h.Intn(10) {
+		tagKind := h.Intn(10)
+		if caseAt >= 0 && (i == caseAt || i == caseAt+1) && tagKind == 0 {
+			tagKind = 9 // lower-casing both names of the case pair would make them collide (a different, known, finding)
+		}
+		switch tagKind {
 		case 0:
 			tag = `json:"` + strings.ToLower(name) + `"`
 		case 1:
